@@ -156,15 +156,18 @@ def make_estimator(rng, run, vd, ncomp):
             return vd.KNeighbors(k=3, reduction=np.median if rng.random() < 0.5 else np.mean), "KNeighbors(k=3)"
         if kind == "chain":
             return vd.Chain([("trend", vd.Trend(degree=1)), ("spline", vd.Spline(damping=float(10 ** rng.uniform(-3, 0))))]), "Chain(Trend,Spline)"
+        if kind == "nested_chain":
+            inner = vd.Chain([("trend", vd.Trend(degree=1)), ("spline", vd.Spline(damping=float(10 ** rng.uniform(-2, 0))))])
+            return vd.Chain([("inner", inner), ("knn", vd.KNeighbors(k=int(rng.integers(1, 4))))]), "Chain(Chain(Trend,Spline),KNeighbors)"
         return vd.Chain([("trend", vd.Trend(degree=2)), ("knn", vd.KNeighbors(k=1))]), "Chain(Trend,KNeighbors)"
 
     with warnings.catch_warnings():
         warnings.simplefilter("ignore")
         if ncomp == 1:
-            pick = ("knn1", "knn1", "knn1", "trend", "spline", "spline", "knn3", "chain", "chain_knn")
+            pick = ("knn1", "knn1", "knn1", "trend", "spline", "spline", "knn3", "chain", "chain_knn", "nested_chain")
             est, label = single(pick)
         else:
-            comps = [single(("trend", "spline", "knn1", "knn1"))[0] for _ in range(ncomp)]
+            comps = [single(("trend", "spline", "knn1", "knn1", "chain"))[0] for _ in range(ncomp)]
             est, label = vd.Vector(comps), "Vector"
             if rng.random() < 0.3:
                 est, label = vd.Chain([("vector", est)]), "Chain(Vector)"
@@ -613,5 +616,109 @@ def case_client(run, rng, vd, index):
     finally:
         client.close()
         cluster.close()
+    with M.GL:
+        M.flush_local(run)
+
+
+def case_splinecv_history(run, rng, vd, index=0):
+    """
+    Re-configuration histories: one SplineCV object is constructed with one candidate grid / scorer / cross-validator / delayed flag,
+    then re-configured (set_params or attribute assignment) before its first fit and again between two fits; the second fit may be on
+    other data. The SplineCV monitor judges every fit with the parameters in force at fit time.
+    """
+    def grid():
+        dampings = sorted({float(10 ** rng.uniform(-4, 0.5)) for _ in range(int(rng.integers(1, 4)))})
+        if rng.random() < 0.5:
+            dampings = dampings[::-1]
+        return dampings
+
+    def some_mindists(ext):
+        return [float(ext * 10 ** rng.uniform(-3, -1)), float(ext * 10 ** rng.uniform(-6, -3))][: int(rng.integers(1, 3))]
+
+    first = make_dataset(rng, run, ncomp=1, nmax=60 if run.tier == "quick" else 80)
+    ds1 = first[0]
+    S.register(ds1)
+    ext = max(np.ptp(ds1.coordinates[0]), np.ptp(ds1.coordinates[1]))
+    with warnings.catch_warnings():
+        warnings.simplefilter("ignore")
+        factory, cv_label, _ = make_cv(rng, run, vd, ds1, allow_default=False, max_splits=4)
+        state = {"dampings": grid(), "mindists": some_mindists(ext) if rng.random() < 0.4 else None, "scoring": pick_scoring(rng, run),
+                 "cv": factory(), "delayed": bool(rng.random() < 0.3)}
+        model = vd.SplineCV(**state)
+        if state["mindists"] is None:
+            state["mindists"] = [0]
+        log = []
+
+        def reconfigure(when, ds, ext, forced):
+            names = [n for n in ("dampings", "mindists", "scoring", "cv", "delayed") if rng.random() < 0.35 or n == forced]
+            for name in names:
+                if name == "dampings":
+                    value = grid()
+                    while value == state["dampings"]:
+                        value = grid()
+                elif name == "mindists":
+                    value = some_mindists(ext)
+                elif name == "scoring":
+                    value = pick_scoring(rng, run)
+                    while R.scoring_name(value) == R.scoring_name(state["scoring"]):
+                        value = pick_scoring(rng, run)
+                elif name == "cv":
+                    value = make_cv(rng, run, vd, ds, allow_default=False, max_splits=4)[0]()
+                else:
+                    value = not state["delayed"]
+                how = "set_params" if rng.random() < 0.5 else "attribute"
+                if how == "set_params":
+                    model.set_params(**{name: value})
+                else:
+                    setattr(model, name, value)
+                state[name] = value
+                run.count("class:splinecv_history:%s:%s:%s" % (name, how, when))
+                run.count("class:splinecv_history:changed:" + name)
+                run.count("class:splinecv_history:how:" + how)
+                run.count("class:splinecv_history:when:" + when)
+                log.append([when, name, how, repr(value)[:80]])
+
+        def fit_and_check(dataset, label):
+            ds, coords, data, weights, info = dataset
+            S.last_splinecv = None
+            model.fit(coords, data, weights)
+            with M.GL:
+                run.evaluated("splinecv_history_fit_judged")
+                if S.last_splinecv is None:
+                    run.count("splinecv_history_fit_not_judged(skipped as ill-conditioned)")
+                run.evaluated("splinecv_parameters_kept")
+                same = (list(model.dampings) == list(state["dampings"]) and list(model.mindists) == list(state["mindists"])
+                        and model.scoring is state["scoring"] and model.cv is state["cv"] and model.delayed == state["delayed"])
+                if not same:
+                    run.violation("splinecv_parameters_kept", "[%s] fit rewrote the constructor parameters of the SplineCV object" % label,
+                                  {"history": log, "get_params": repr(model.get_params())[:600]}, key="splinecv-params-rewritten")
+                cands = [(m, d) for m in state["mindists"] for d in state["dampings"]]
+                if S.last_splinecv is not None:
+                    run.evaluated("splinecv_current_grid")
+                    if [tuple(c) for c in S.last_splinecv["cands"]] != cands or (model.mindist_, model.damping_) not in cands:
+                        run.violation("splinecv_current_grid", "[%s] the fit used candidates %s / selected %r; the grid in force is %s"
+                                      % (label, S.last_splinecv["cands"], (model.mindist_, model.damping_), cands), {"history": log}, key="splinecv-stale-grid")
+
+        order = ("dampings", "scoring", "mindists", "cv")
+        reconfigure("before_first_fit", ds1, ext, order[index % 4])
+        fit_and_check(first, "first fit")
+        second = first
+        if rng.random() < 0.6:
+            second = make_dataset(rng, run, ncomp=1, weighted=ds1.weights is not None, nmax=60 if run.tier == "quick" else 80)
+            S.register(second[0])
+            run.count("class:splinecv_history:second_fit_on_other_data")
+        ds2 = second[0]
+        ext2 = max(np.ptp(ds2.coordinates[0]), np.ptp(ds2.coordinates[1]))
+        if second is not first:
+            # a cross-validator valid for the new data (block shapes / test sizes depend on it)
+            value = make_cv(rng, run, vd, ds2, allow_default=False, max_splits=4)[0]()
+            model.set_params(cv=value)
+            state["cv"] = value
+            run.count("class:splinecv_history:cv:set_params:between_fits")
+            log.append(["between_fits", "cv", "set_params", repr(value)])
+        reconfigure("between_fits", ds2, ext2, order[(index + 2) % 4])
+        fit_and_check(second, "second fit")
+    run.sample("SplineCV_history", {"history": log, "first_dataset": first[4], "second_dataset": second[4],
+                                    "selected_after_second_fit": [model.mindist_, model.damping_]})
     with M.GL:
         M.flush_local(run)
